@@ -91,30 +91,49 @@ def from_model(m):
 
 
 def grid_from_model(m, version_given=True, style=None):
-    """Build the grid the way a user would.  Three documented ways exist and all must behave alike, so the style is
-    varied deterministically with the shape of the grid: 0 = item stores on MetadataObjects, 1 = plain dicts as column
-    metadata (README style), 2 = everything through the Grid constructor."""
+    """Build the grid the way a user would.  Several documented ways exist and all must behave alike, so the style is
+    varied deterministically with the shape of the grid:
+      0  item stores on MetadataObjects, tags and columns inserted back to front with add_item(index=0)
+      1  plain dicts as column metadata (README style), rows via extend() with their keys in reverse column order
+      2  everything through the Grid constructor
+      3  as 0, but without a declared version when the content itself promotes the grid to 3.0"""
     import hszinc
     _, ver, meta, cols, rows = m
     if style is None:
-        style = (len(cols) + len(rows) + len(meta)) % 3
+        style = (len(cols) + len(rows) + len(meta)) % 4
+    if style == 3 and not (version_given and ver == '3.0' and has_v3(m)):
+        style = 0
+    declared = ver if (version_given and style != 3) else None
     if style == 2:
-        g = hszinc.Grid(version=ver if version_given else None,
+        g = hszinc.Grid(version=declared,
                         metadata=dict((kk, from_model(v)) for kk, v in meta),
                         columns=[(name, [(kk, from_model(v)) for kk, v in cmeta]) for name, cmeta in cols])
-    else:
-        g = hszinc.Grid(version=ver if version_given else None)
+    elif style == 3:
+        # no declared version: every value goes through a validating store, which promotes the grid to 3.0
+        g = hszinc.Grid(columns=[(name, []) for name, _ in cols])
         for kk, v in meta:
             g.metadata[kk] = from_model(v)
         for name, cmeta in cols:
+            for kk, v in cmeta:
+                g.column[name][kk] = from_model(v)
+    else:
+        g = hszinc.Grid(version=declared)
+        if style == 1:
+            for kk, v in meta:
+                g.metadata[kk] = from_model(v)
+        else:
+            for kk, v in reversed(meta):
+                g.metadata.add_item(kk, from_model(v), index=0)
+        for name, cmeta in (cols if style == 1 else reversed(cols)):
             if style == 1:
                 g.column[name] = dict((kk, from_model(v)) for kk, v in cmeta)
             else:
-                g.column[name] = hszinc.MetadataObject()
+                mo = hszinc.MetadataObject()
                 for kk, v in cmeta:
-                    g.column[name][kk] = from_model(v)
+                    mo[kk] = from_model(v)
+                g.column.add_item(name, mo, index=0)
     if style == 1 and rows:
-        g.extend([dict((c, from_model(v)) for c, v in row) for row in rows])
+        g.extend([dict((c, from_model(v)) for c, v in reversed(row)) for row in rows])
     else:
         for row in rows:
             g.append(dict((c, from_model(v)) for c, v in row))
@@ -150,7 +169,7 @@ def to_model(v):
         return ['bin', str.__str__(v)]
     if t is hszinc.Ref:
         return ['ref', v.name, v.value if v.has_value else None]
-    if t is hszinc.XStr:
+    if isinstance(v, hszinc.XStr):
         return ['xstr', v.encoding, v.data_to_string()]
     if isinstance(v, datetime.datetime):
         off = v.utcoffset()
@@ -168,7 +187,7 @@ def to_model(v):
         return ['time', v.hour, v.minute, v.second, v.microsecond]
     if t is hszinc.Coordinate:
         return ['coord', v.latitude, v.longitude]
-    if t is list:
+    if isinstance(v, list):
         return ['list', [to_model(x) for x in v]]
     if isinstance(v, hszinc.Grid):
         return grid_to_model(v)
